@@ -91,9 +91,12 @@ def write_replay(prop, res):
 def replay_file(path):
     """Re-run a recorded counterexample concretely (plain CPython, no tracing)."""
     from kv import rt  # noqa: F401
-    from kv import worker
     with open(path) as f:
         body = json.load(f)
+    if body["module"] == "kv.conc":
+        from kv import conc
+        return EXIT_VIOLATION if conc.replay_custom(body) else EXIT_OK
+    from kv import worker
     mod = importlib.import_module(body["module"])
     h = getattr(mod, body["factory"])(**body["kwargs"])
     args = {k: worker.unjson(v) for k, v in body["args"].items()}
@@ -176,6 +179,23 @@ def run_property(prop, tier, only=None):
         print(line)
     # 2. all conditions (regions of open findings excluded inside the worker)
     jobs = []
+    custom_results = []
+    if spec.get("custom"):
+        # a property decided by direct solver queries instead of CrossHair conditions (C10): run in a
+        # subprocess (threads, module patching) and take its result records as they are
+        env = dict(os.environ)
+        env["PYTHONPATH"] = HERE + os.pathsep + env.get("PYTHONPATH", "")
+        code = ("import json,sys,importlib\n"
+                "m=importlib.import_module(%r)\n"
+                "print('KVCUSTOM '+json.dumps(m.run_custom(%r,%r)))\n" % (spec["custom"], prop, tier))
+        pr = subprocess.run(["timeout", "-k", "10", "3600", sys.executable, "-c", code], cwd=HERE, env=env,
+                            stdout=subprocess.PIPE, stderr=subprocess.PIPE, text=True)
+        for line in pr.stdout.splitlines():
+            if line.startswith("KVCUSTOM "):
+                custom_results = json.loads(line[len("KVCUSTOM "):])
+        if not custom_results:
+            custom_results = [dict(name="custom-runner", module=spec["custom"], tier=tier, factory="run_custom", kwargs={},
+                                   verdict="harness_error", error="custom runner exit %s: %s" % (pr.returncode, pr.stderr[-1500:]))]
     for modname in spec["modules"]:
         mod = importlib.import_module(modname)
         for c in mod.conditions(tier):
@@ -184,7 +204,7 @@ def run_property(prop, tier, only=None):
             jobs.append((modname, c))
     # longest first so the tail is short
     jobs.sort(key=lambda mc: -mc[1].timeout)
-    results = []
+    results = list(custom_results)
     with ThreadPoolExecutor(max_workers=JOBS) as ex:
         futs = [ex.submit(run_worker, m, tier, c) for m, c in jobs]
         for fu in futs:
